@@ -22,6 +22,11 @@ import QEProofs.Lemmas.C01More
 import QEProofs.Lemmas.C01Solve
 import QEProofs.Lemmas.C01Term
 import QEProofs.Lemmas.C01Lp
+import QEProofs.Lemmas.C01LpOpt
+import QEProofs.Lemmas.C01LpStart
+import QEProofs.Lemmas.C01MpiMono
+import QEProofs.Lemmas.C01LpRay
+import QEProofs.Lemmas.C01LpTerm
 set_option linter.unusedSectionVars false
 
 namespace QE.C01
@@ -572,6 +577,90 @@ theorem lp_certified {P : Prob K} (hP : WF P) {β : K} (hβ0 : 0 ≤ β) (hβ1 :
   ⟨(vStar_dominates hP hβ0 hβ1 hS).1 _ _ hfeas hval,
    (lp_exit_partial hP hβ0 hβ1 tol σ0 maxIter hstop hS).2⟩
 
+/-- the `n` initial pivots of `ddp_linprog_simplex` onto a feasible policy are always valid: no zero
+    pivot element, non-negative right-hand sides afterwards (M-matrix invariant of `I − βQ_σ`:
+    non-positive off-diagonal entries and positive column sums on the unprocessed block survive
+    every elimination step).  `lpStartChk` is the executable check the driver prints as `rstart`. -/
+theorem lp_start_valid {P : Prob K} (hP : WF P) {β : K} (hβ0 : 0 ≤ β) (hβ1 : β < 1) {σ0 : List ℕ}
+    (hf0 : Feasible P σ0) : lpStartChk P β (lpBasis0 P σ0) = true :=
+  lpStartChk_holds hP hβ0 hβ1 hf0
+
+/-- **T2 `lp_exit_optimal`** (exact arithmetic: the three pivoting tolerances are 0).
+    About the model of `ddp_linprog_simplex` — dual-LP tableau, `n` pivots onto the start policy,
+    `solve_tableau` with the largest-coefficient rule and the lexicographic ratio test (the C04
+    model) — for every well-formed problem, `β ∈ [0,1)`, feasible start policy `σ0` and cap:
+    if the method reports status 0 then
+      * the returned policy is feasible (the basis is a policy: one pair per state, row `i` holding
+        a pair of state `i` — kept invariant through all pivots by a pigeonhole argument on the
+        non-negative basic solution, C04's canonical-form / feasibility / solution-set invariant
+        being started from `lp_start_valid`),
+      * the returned `v` (negated criterion-row entries) is the value of that policy, `T_σ v = v`,
+      * `T v = v`: `v` is the optimal value (`vStar_unique`, `vStar_dominates`) and `σ` is optimal.
+    Termination is `lp_terminates`; `lp_exit_partial` is the tolerance-robust half. -/
+theorem lp_exit_optimal {P : Prob K} (hP : WF P) {β : K} (hβ0 : 0 ≤ β) (hβ1 : β < 1) {σ0 : List ℕ}
+    (hf0 : Feasible P σ0) (maxIter : ℕ)
+    (hstop : (lpSolve (QE.C04.tol0 : QE.C04.Tol K) P β σ0 maxIter).stopped = true) :
+    Feasible P (lpSolve (QE.C04.tol0 : QE.C04.Tol K) P β σ0 maxIter).sigma ∧
+    tSigma P β (lpSolve (QE.C04.tol0 : QE.C04.Tol K) P β σ0 maxIter).sigma
+        (lpSolve (QE.C04.tol0 : QE.C04.Tol K) P β σ0 maxIter).v
+      = (lpSolve (QE.C04.tol0 : QE.C04.Tol K) P β σ0 maxIter).v ∧
+    bellman P β (lpSolve (QE.C04.tol0 : QE.C04.Tol K) P β σ0 maxIter).v
+      = (lpSolve (QE.C04.tol0 : QE.C04.Tol K) P β σ0 maxIter).v :=
+  lpSolve_opt_of_start hP hβ0 hf0 maxIter
+    (inv0_of_startChk hf0 (lpStartChk_holds hP hβ0 hβ1 hf0)) hstop
+
+/-- the LP method as `DiscreteDP.linprog_simplex` calls it (start policy = the `v_init`-greedy one):
+    at status 0 the returned value is *the* optimal value and dominates every policy's value -/
+theorem lp_exit_value {P : Prob K} (hP : WF P) {β : K} (hβ0 : 0 ≤ β) (hβ1 : β < 1) (vInit : List K)
+    (maxIter : ℕ)
+    (hstop : (lpSolve (QE.C04.tol0 : QE.C04.Tol K) P β (greedy P β vInit) maxIter).stopped = true) :
+    (∀ vS, bellman P β vS = vS →
+      (lpSolve (QE.C04.tol0 : QE.C04.Tol K) P β (greedy P β vInit) maxIter).v = vS) ∧
+    (∀ σ w, Feasible P σ → tSigma P β σ w = w →
+      LeAdd 0 w (lpSolve (QE.C04.tol0 : QE.C04.Tol K) P β (greedy P β vInit) maxIter).v) := by
+  have h := (lp_exit_optimal hP hβ0 hβ1 (greedy_feasible hP.nonempty β vInit) maxIter hstop).2.2
+  exact ⟨fun vS hS => vStar_unique hP hβ0 hβ1 h hS, (vStar_dominates hP hβ0 hβ1 h).1⟩
+
+/-- **T2 `lp_never_unbounded`** (tolerances 0).  The LP method's `solve_tableau` never reports
+    status 3 on a discounted DP: a column with positive reduced cost always has a positive entry
+    and the lexicographic ratio test always resolves ties (otherwise there would be a non-zero
+    non-negative `d` with `A d = 0`, and summing the constraint rows gives `(1−β) Σ d = 0`).
+    Consequently the method either reports success — and then `lp_exit_optimal` applies — or has
+    used up `max_iter` (`num_iter = max(max_iter − n, 0) + n`). -/
+theorem lp_never_unbounded {P : Prob K} (hP : WF P) {β : K} (hβ0 : 0 ≤ β) (hβ1 : β < 1)
+    {σ0 : List ℕ} (hf0 : Feasible P σ0) (maxIter : ℕ) :
+    (lpSolve (QE.C04.tol0 : QE.C04.Tol K) P β σ0 maxIter).stopped = true ∨
+    (lpSolve (QE.C04.tol0 : QE.C04.Tol K) P β σ0 maxIter).iters = (maxIter - P.length) + P.length :=
+  lpSolve_stopped_or_cap hP hβ0 hβ1 hf0 maxIter
+
+/-- **T2 `lp_terminates`** (tolerances 0).  The LP method reports success as soon as
+    `max_iter ≥ n + (number of conceivable bases) + 1`: every basic variable carries positive mass
+    (non-degeneracy of the dual LP of a discounted DP), so every pivot strictly improves the
+    objective; a basis determines the objective value, so no basis recurs.
+    (`allBases P` lists the `L^n` ways of naming one structural column per row — a crude bound.) -/
+theorem lp_terminates {P : Prob K} (hP : WF P) {β : K} (hβ0 : 0 ≤ β) (hβ1 : β < 1)
+    {σ0 : List ℕ} (hf0 : Feasible P σ0) (maxIter : ℕ)
+    (hN : P.length + (allBases P).length + 1 ≤ maxIter) :
+    (lpSolve (QE.C04.tol0 : QE.C04.Tol K) P β σ0 maxIter).stopped = true :=
+  lpSolve_terminates hP hβ0 hβ1 hf0 maxIter hN
+
+/-- **the LP method is totally correct in exact arithmetic**: for a large enough cap it returns a
+    feasible policy, its value, and that value satisfies the optimality equation (hence is the
+    optimal value and dominates every policy's value) -/
+theorem lp_correct {P : Prob K} (hP : WF P) {β : K} (hβ0 : 0 ≤ β) (hβ1 : β < 1)
+    {σ0 : List ℕ} (hf0 : Feasible P σ0) (maxIter : ℕ)
+    (hN : P.length + (allBases P).length + 1 ≤ maxIter) :
+    Feasible P (lpSolve (QE.C04.tol0 : QE.C04.Tol K) P β σ0 maxIter).sigma ∧
+    tSigma P β (lpSolve (QE.C04.tol0 : QE.C04.Tol K) P β σ0 maxIter).sigma
+        (lpSolve (QE.C04.tol0 : QE.C04.Tol K) P β σ0 maxIter).v
+      = (lpSolve (QE.C04.tol0 : QE.C04.Tol K) P β σ0 maxIter).v ∧
+    bellman P β (lpSolve (QE.C04.tol0 : QE.C04.Tol K) P β σ0 maxIter).v
+      = (lpSolve (QE.C04.tol0 : QE.C04.Tol K) P β σ0 maxIter).v ∧
+    ∀ σ w, Feasible P σ → tSigma P β σ w = w →
+      LeAdd 0 w (lpSolve (QE.C04.tol0 : QE.C04.Tol K) P β σ0 maxIter).v := by
+  have h := lp_exit_optimal hP hβ0 hβ1 hf0 maxIter (lp_terminates hP hβ0 hβ1 hf0 maxIter hN)
+  exact ⟨h.1, h.2.1, h.2.2, (vStar_dominates hP hβ0 hβ1 h.2.2).1⟩
+
 /-! ## existence over ℝ, and the statements without fixed-point hypotheses -/
 
 /-- **T1 `vStar_exists`.** Over ℝ the optimal value exists (Banach fixed point of the
@@ -624,6 +713,55 @@ theorem mpi_correct_real {P : Prob ℝ} (hP : WF P) {β ε : ℝ} (hβ0 : 0 ≤ 
     (Forall₂.length_eq h.2.1).symm
   obtain ⟨w, hw⟩ := vPolicy_exists hP hβ0 hβ1 hσl
   exact ⟨h.1, h.2.1, w, hw, h.2.2 w hw⟩
+
+/-! ## modified policy iteration from a sub-solution (Puterman 6.5) -/
+
+/-- **T2 `mpi_monotone`.** `mpiStep P β k v` is one non-stopping outer iteration of
+    `modified_policy_iteration` (the `v`-greedy policy, then `k` sweeps of `T_σ` on `T v`; this is
+    literally the argument of the recursive call in `mpiLoop`).  Started from a sub-solution
+    `v ≤ T v`, for every `k` and every number `j` of outer iterations the iterate is again a
+    sub-solution, the iterates increase, they stay below the optimal value, and the error
+    `max(v* − v_j)` contracts: `≤ βʲ · max(v* − v₀)`. -/
+theorem mpi_monotone {P : Prob K} (hP : WF P) {β : K} (hβ0 : 0 ≤ β) (hβ1 : β < 1) (k : ℕ)
+    {v vS : List K} (hv : LeAdd 0 v (bellman P β v)) (hS : bellman P β vS = vS) (j : ℕ) :
+    LeAdd 0 ((mpiStep P β k)^[j] v) (bellman P β ((mpiStep P β k)^[j] v)) ∧
+    LeAdd 0 ((mpiStep P β k)^[j] v) ((mpiStep P β k)^[j + 1] v) ∧
+    LeAdd 0 ((mpiStep P β k)^[j] v) vS ∧
+    exc vS ((mpiStep P β k)^[j] v) ≤ β ^ j * exc vS v :=
+  have h := mpiStep_iterate hP hβ0 k hv j
+  ⟨h.1, h.2, sub_le_vStar hP hβ0 hβ1 h.1 hS, mpiStep_error_iterate hP hβ0 k hv hS j⟩
+
+/-- the default start `min r/(1−β)` of `modified_policy_iteration` is a sub-solution
+    ("to guarantee convergence", as the docstring of `solve` says) -/
+theorem mpi_default_start_sub {P : Prob K} (hP : WF P) {β : K} (hβ1 : β < 1) :
+    LeAdd 0 (mpiInit P β) (bellman P β (mpiInit P β)) := mpiInit_sub hP hβ1
+
+/-- **T2 `mpi_terminates`.** Over an Archimedean field, started from a sub-solution — in particular
+    from the default `v_init` — modified policy iteration leaves its loop through the span test for
+    every sufficiently large `max_iter` (and then `mpi_stop` applies), for every `k`. -/
+theorem mpi_terminates [Archimedean K] {P : Prob K} (hP : WF P) {β ε : K} (hβ0 : 0 ≤ β) (hβ1 : β < 1)
+    (hε : 0 < ε) (k : ℕ) {vS : List K} (hS : bellman P β vS = vS) :
+    (∀ vInit, LeAdd 0 vInit (bellman P β vInit) →
+      ∃ N, ∀ maxIter, N ≤ maxIter → (modifiedPI P β ε vInit maxIter k).stopped = true) ∧
+    ∃ N, ∀ maxIter, N ≤ maxIter → (modifiedPI P β ε (mpiInit P β) maxIter k).stopped = true :=
+  ⟨fun _ hv => mpi_terminates_aux hP hβ0 hβ1 hε k hv hS,
+   mpi_terminates_aux hP hβ0 hβ1 hε k (mpiInit_sub hP hβ1) hS⟩
+
+/-- **MPI with its default start is totally correct over ℝ**: for every large enough cap it stops by
+    its own rule, within `ε/2` of the optimal value, with a feasible `ε`-optimal policy. -/
+theorem mpi_default_correct_real {P : Prob ℝ} (hP : WF P) {β ε : ℝ} (hβ0 : 0 ≤ β) (hβ1 : β < 1)
+    (hε : 0 < ε) (k : ℕ) :
+    ∃ vS, bellman P β vS = vS ∧ ∃ N, ∀ maxIter, N ≤ maxIter →
+      (modifiedPI P β ε (mpiInit P β) maxIter k).stopped = true ∧
+      supDist (modifiedPI P β ε (mpiInit P β) maxIter k).v vS < ε / 2 ∧
+      Feasible P (modifiedPI P β ε (mpiInit P β) maxIter k).sigma ∧
+      ∀ w, tSigma P β (modifiedPI P β ε (mpiInit P β) maxIter k).sigma w = w → supDist w vS < ε := by
+  obtain ⟨vS, hS⟩ := vStar_exists hP hβ0 hβ1
+  obtain ⟨N, hN⟩ := (mpi_terminates hP hβ0 hβ1 hε k hS).2
+  refine ⟨vS, hS, N, fun maxIter hm => ?_⟩
+  have hstop := hN maxIter hm
+  have h := mpi_stop hP hβ0 hβ1 hε (by simp) maxIter k hS hstop
+  exact ⟨hstop, h.1, h.2.1, h.2.2⟩
 
 /-! ## non-vacuity: Puterman's two-state example (ddp.py docstring), β = 1/2 -/
 
@@ -682,6 +820,15 @@ example : (lpSolve ratPivTol exP (1/2) [0, 0] 500).sigma = [1, 0] := by decide +
 example : tSigma exP (1/2) (lpSolve ratPivTol exP (1/2) [0, 0] 500).sigma
     (lpSolve ratPivTol exP (1/2) [0, 0] 500).v = (lpSolve ratPivTol exP (1/2) [0, 0] 500).v := by
   decide +kernel
+/-- hypotheses of `lp_exit_optimal` on the example (tolerances 0, start policy (0,0)) -/
+example : lpStartChk exP (1/2) (lpBasis0 exP [0, 0]) = true := by decide +kernel
+example : (lpSolve (QE.C04.tol0 : QE.C04.Tol ℚ) exP (1/2) [0, 0] 500).stopped = true := by
+  decide +kernel
+example : (lpSolve (QE.C04.tol0 : QE.C04.Tol ℚ) exP (1/2) [0, 0] 500).v = [9, -2] := by
+  decide +kernel
+/-- the default MPI start of the example is a sub-solution; one outer step (k = 3) increases it -/
+example : mpiInit exP (1/2) = [-2, -2] := by decide +kernel
+example : mpiStep exP (1/2) 3 [-2, -2] = [9, -2] := by decide +kernel
 /-- with `max_iter = 2` the cap is hit instead: `stopped = false`, `num_iter = max_iter` -/
 example : (valueIteration exP (1/2) (1/10) [0, 0] 2).stopped = false := by decide +kernel
 
